@@ -234,6 +234,9 @@ pub fn run(eng: &mut Engine) {
                 if inp.stats.subs >= 3 {
                     ctx.label("subs>=3");
                 }
+                if inp.stats.misaddressed_subs > 0 {
+                    ctx.label("has-function-entry-inside-a-block");
+                }
                 if firing_all.len() >= 3 && pi_in_partial {
                     ctx.label("nontrivial");
                     ctx.nontrivial(case_hash(tape));
